@@ -142,13 +142,17 @@ def driverStep (d : DState) (line : SExp) : DState × SExp :=
   | .list (.atom "multi" :: qs) =>
     -- several path queries answered at once (a sweep that follows several operations): union of the sets
     match qs.mapM (fun q => match q with
+        | .list [.atom "free", .atom cls, .atom how, .list roles] => do
+          let rs ← roles.mapM parseRole
+          if (cls = "Glyph" || cls = "Contour") && (how = "own" || how = "registered") then
+            some (freeOut d.toCfg cls (how = "own") rs) else none
         | .list [.atom name, .list roles] => do
           let rs ← roles.mapM parseRole
-          if (AL.get? paths name).isSome then some (name, rs) else none
+          if (AL.get? paths name).isSome then some (pathOut d.toCfg name rs) else none
         | _ => none) with
     | some items =>
       (d, tagged "set" ((items.flatMap fun it =>
-        match pathOut d.toCfg it.1 it.2 with
+        match it with
         | .list (_ :: xs) => xs
         | _ => []).eraseDups))
     | none => (d, .atom "bad-op")
